@@ -9,7 +9,7 @@
    mode / name setting; event lists are arbitrary. *)
 From Coq Require Import NArith List Bool.
 From Rodbus Require Import Model.Retry Spec.RetrySpec Spec.Lifecycle Spec.ClientSpec Gen.SessionErrors Model.ClientTask
-  Spec.TlsSpec Gen.TlsVersions Gen.TlsModes Model.Tls Model.RetryTask Model.ClientFront Proofs.ClientFrontProofs.
+  Spec.TlsSpec Gen.TlsVersions Gen.TlsModes Model.Tls Model.RetryTask Model.ClientFront Proofs.C13Live Proofs.ClientFrontProofs.
 Import ListNotations.
 Local Open Scope N_scope.
 
@@ -91,19 +91,45 @@ Theorem ClientFront_is_task_step : forall cfg tr f e,
 Proof. exact cstep_is_step. Qed.
 Print Assumptions ClientFront_is_task_step.
 
-(* OBSERVATION, not judged: the handshake await is not raced with the command queue. A Shutdown
-   submitted while a TLS server stalls in the handshake stays queued (no Shutdown announcement, the
-   task stays parked) however much time passes, whereas the same command while the TCP connect
-   itself is pending is honoured at once *)
-Theorem ClientFront_handshake_not_raced_observation :
+(* The handshake is raced with the command queue (repo fix "a TLS client waiting in its handshake ignored
+   shutdown, disable and queued requests"; before it this was ClientFront_handshake_not_raced_observation):
+   while the handshake is pending every event of the task model is handled exactly as p4's Connecting
+   phase handles it ... *)
+Theorem ClientFront_parked_is_connecting : forall cfg tr f ev, (forall b, ev <> EvConnect b) ->
+  (core (fst (cstep cfg tr f (CE ev))), snd (cstep cfg tr f (CE ev))) = ClientTask.step cfg (core f) ev.
+Proof. exact parked_is_connecting. Qed.
+Print Assumptions ClientFront_parked_is_connecting.
+
+(* ... so a Shutdown taken from the queue while the handshake is pending ends the task at once with
+   exactly one Shutdown notification and drops the handshake (the socket), a queued request fails at
+   once with NoConnection and the handshake goes on ... *)
+Theorem ClientFront_shutdown_during_handshake : forall cfg tr f k q, finv tr f -> hs f = Some k -> queue (core f) = CShutdown :: q ->
+  let f' := fst (cstep cfg tr f (CE EvRecv)) in
+  ph (core f') = PDone /\ hs f' = None /\ listens_of (snd (cstep cfg tr f (CE EvRecv))) = [LShutdown].
+Proof. exact shutdown_during_handshake. Qed.
+Print Assumptions ClientFront_shutdown_during_handshake.
+
+Theorem ClientFront_request_during_handshake_fails_fast : forall cfg tr f k r q, finv tr f -> hs f = Some k ->
+  queue (core f) = CReq r :: q ->
+  snd (cstep cfg tr f (CE EvRecv)) = [OComplete (rq_id r) (RErr ReNoConnection)] /\ hs (fst (cstep cfg tr f (CE EvRecv))) = Some k.
+Proof. exact request_during_handshake_fails_fast. Qed.
+Print Assumptions ClientFront_request_during_handshake_fails_fast.
+
+(* ... and p4's liveness theorem C13_shutdown_from_every_state carries over to the composed TLS client in
+   EVERY state, the pending handshake included (before the fix it did not: in the parked phase the
+   task's own steps did nothing): once a Shutdown command is queued, the task's own steps (recv, its
+   timers, the clock) lead to termination *)
+Theorem ClientFront_shutdown_from_every_state : forall cfg tr f,
+  (queue (core f) = [] -> blocked (core f) = []) -> In CShutdown (queue (core f) ++ blocked (core f)) -> ph (core f) <> PDone ->
+  exists es, forallb Proofs.C13Live.internal es = true /\ ph (core (fst (crun cfg tr f (map CE es)))) = PDone.
+Proof. exact front_shutdown_from_every_state. Qed.
+Print Assumptions ClientFront_shutdown_from_every_state.
+
+(* non-vacuity: a TLS server that accepts the TCP connection and stays silent; Shutdown is honoured at once *)
+Example ClientFront_silent_server :
   let cfg := {| cfg_cap := 4%nat; cfg_res := 1 |} in
   let tr := CTls V1_2 AuthorityBased true in
-  let es := [CE (EvSubmit CEnable SFuture); CE EvRecv; CTcp true SrvStalls;
-             CE (EvSubmit CShutdown SFuture); CE EvRecv; CE (EvTick 60000000000); CE EvTimer; CE EvRecv; CHandshake; CE EvRecv] in
-  let '(f, o) := crun cfg tr (cinit 1 None 20 70) es in
-  hs f = Some SrvStalls /\ queue (core f) = [CShutdown] /\ ph (core f) = PConnecting /\
-  listens_of o = [LConnecting] /\
-  listens_of (snd (crun cfg tr (cinit 1 None 20 70)
-                     [CE (EvSubmit CEnable SFuture); CE EvRecv; CE (EvSubmit CShutdown SFuture); CE EvRecv])) = [LConnecting; LShutdown].
-Proof. exact handshake_not_raced_witness. Qed.
-Print Assumptions ClientFront_handshake_not_raced_observation.
+  let '(f, o) := crun cfg tr (cinit 1 None 20 70)
+                   [CE (EvSubmit CEnable SFuture); CE EvRecv; CTcp true SrvStalls; CE (EvSubmit CShutdown SFuture); CE EvRecv] in
+  hs f = None /\ ph (core f) = PDone /\ listens_of o = [LConnecting; LShutdown].
+Proof. exact handshake_raced_witness. Qed.
